@@ -53,6 +53,9 @@ class EscapeStr(Contract):
     def cases(self):
         return ['shell', 'clean', 'output', 'input']
 
+    def case_in_property(self, case, pid):
+        return case in {'C02': ('shell', 'clean'), 'C04': ('output', 'input')}.get(pid, (case,))
+
     def params(self, cx, case):
         return {'string': cx.str('string'), 'syntax': Syntax[case]}
 
@@ -120,6 +123,10 @@ class Write(Contract):
 
     def cases(self):
         return ['%s/%s' % (k, sx) for k in self.KINDS for sx in ('shell', 'clean', 'output', 'input')]
+
+    def case_in_property(self, case, pid):
+        sx = case.split('/')[1]
+        return sx in {'C02': ('shell', 'clean'), 'C04': ('output', 'input')}.get(pid, (sx,))
 
     def mk_self(self, cx):
         buf0 = z3.Const('buf0', T.Str)
